@@ -81,6 +81,7 @@ class Ctx:
         self.config = config
         self.rules = []
         self.log = log
+        self.skip_rules = set()
         self.repo = repo or gen.REPO
         self._facts_path = facts_path
         self._fx = None
@@ -120,7 +121,13 @@ class Ctx:
         return self._cg
 
     def rule(self, rid, desc, floor=0, floor_what='instances'):
+        if self.config != 'default':
+            # floors are counts confirmed by hand on the default-feature build; another feature
+            # configuration legitimately has fewer instances (feature-gated code is absent)
+            floor = 0
         r = Rule(self, rid, desc, floor, floor_what)
+        if self.config != 'default' and rid in self.skip_rules:
+            return r        # needs crates/features this configuration does not contain: not evaluated
         self.rules.append(r)
         return r
 
@@ -188,6 +195,8 @@ def run_property(prop, tier='quick', replay=None, facts_path=None, repo=None, wr
             crates = ['trust_runtime']
             if not getattr(mod, 'NODEFAULT_OK', False):
                 continue
+        if cfgname != 'default':
+            ctx.skip_rules = set(getattr(mod, 'NODEFAULT_SKIP', ()))
         ctx.facts(crates)
         mod.run(ctx)
         if tier == 'thorough' and hasattr(mod, 'run_thorough') and cfgname == 'default':
